@@ -305,6 +305,19 @@ class Analysis:
             st.update({f"orc_{k}": v for k, v in orc.stats.items()})
 
     # ------------------------------------------------------------------ C04
+    _neutral = None
+
+    def neutral_gen(self, m):
+        if self._neutral is None:
+            import copy
+            try:
+                nm = copy.copy(m)
+                nm.set_raw_name("Zq9Neutral", generated=False)
+                self._neutral = driver.FW[self.opts["framework"]](nm, **driver.generator_kwargs(self.opts))
+            except Exception:
+                self._neutral = False
+        return self._neutral or None
+
     def c04(self):
         fw = self.opts["framework"]
         reg = self.run.registry
@@ -323,6 +336,15 @@ class Analysis:
                 if pyd and (meta_t is Unknown or meta_t is Null):
                     continue
                 name = nfkc(self.gens[ix].convert_field_name(key))
+                # the sanitised key is a function of the key text (and the options), not of the class it sits in: a generator object
+                # made for a model with an unrelated name must convert the key to the same text
+                if self.neutral_gen(m) is not None:
+                    st["c04_neutral_names"] = st.get("c04_neutral_names", 0) + 1
+                    nn = nfkc(self._neutral.convert_field_name(key))
+                    if nn != name:
+                        self.w.append(W("C04", "field-name-depends-on-class-name",
+                                        f"key {key!r} of {m.name}: a generator for {m.name} names the field {name!r}, one for a model called "
+                                        f"'Zq9Neutral' names it {nn!r}"))
                 try:
                     T = ir_to_typing(meta_t, style, self.cls_by_index)
                 except KeyError as e:
